@@ -15,6 +15,7 @@ import (
 	"syscall"
 
 	"github.com/coredhcp/coredhcp/handler"
+	"verif/harness/core"
 	"verif/harness/plug"
 )
 
@@ -122,6 +123,8 @@ type chainInst struct {
 	h4    []handler.Handler4
 	h6    []handler.Handler6
 	files []string
+	// refresh: lease files watched by a file plugin instance set up with autorefresh
+	refresh []string
 }
 
 func (ci *chainInst) cleanup() {
@@ -144,6 +147,19 @@ func buildChain(v6 bool, specs []PluginSpec) (*chainInst, error) {
 		for i, a := range s.Args {
 			if strings.HasPrefix(a, "@") {
 				ci.files = append(ci.files, args[i])
+			}
+		}
+		if s.Name == "file" && len(args) == 2 && args[1] == "autorefresh" {
+			// the plugin never releases its inotify instance: bounded per process
+			budget := 20
+			if core.Thorough() {
+				budget = 6 // up to 16 processes, the per-user limit is 128 instances
+			}
+			if watchers.Load() >= int64(core.EnvInt("VERIF_MAX_WATCHERS", budget)) {
+				args = args[:1]
+			} else {
+				watchers.Add(1)
+				ci.refresh = append(ci.refresh, args[0])
 			}
 		}
 		if v6 {
